@@ -16,6 +16,7 @@ def run(ctx):
     import golden, objcheck, demcheck
     golden.check(ctx)
     demcheck.header_roundtrips(ctx)
+    demcheck.big_metadata(ctx)
     objcheck.wire(ctx, profiles.C13, 30 if ctx.quick() else 300, 'default')
     if 'alt' not in ctx.unbuilt: objcheck.wire(ctx, profiles.C13, 10 if ctx.quick() else 100, 'alt')
     hc.vm_crosscheck(ctx, H, model)
@@ -24,6 +25,10 @@ def run(ctx):
 
 def replay(ctx, path):
     import json
+    if 'bigmeta' in rep:
+        import demcheck
+        vf.build_harness(ctx); d = demcheck.Demd(); o = d.ask(f"HDRBIG {rep['bigmeta']}"); d.close()
+        print(o.replace('_', ' ')[:600]); return 0 if o.split(' ')[-1] == '-' else 1
     rep = json.load(open(path))
     if 'script' in rep: return hc.replay(ctx, path)
     if 'golden_vector' in rep:
